@@ -146,12 +146,14 @@ def search(ctx, budget_s):
     n = 0
     limit = 20000 if ctx.thorough else 1500
     names = list(pmodel.ALL_FILTERS)
+    history = []  # every call of this search, in order: a failure may depend on what the process did before
     while time.time() - t0 < budget_s and n < limit:
         name = names[n % len(names)]
         _, args = pmodel.gen_call(rng, [name])
         evs, ids, specs = build_events(rng, unset_prob=0.12, need_pdg=name in pmodel.NEEDS_PDG)
         n += 1
         r = oracle_one(name, args, evs, ids)
+        history.append((name, args, specs))
         ctx.case(("oracle", name, canon_args(args), tuple(tuple(sorted(s.items())) for sp in specs for s in sp)), True)
         if r is None and (name in pmodel.SPECIES or name == "particle_status"):
             # same answer for scalar / list / tuple / array
@@ -166,14 +168,92 @@ def search(ctx, budget_s):
                     r = (f"{name}-arg-shape", f"{name}: scalar/list/tuple/ndarray give different answers for {vals[0]}: {outs}")
         if r:
             evs2, specs2 = shrink(name, args, specs, r[0])
-            ctx.violation(r[0], r[1], dict(input=dict(filter=name, args=canon_args(args),
-                                                       arg_type=type(args[-1]).__name__ if args else None, events=specs2),
-                                           how_to_replay="./check C03 --replay <this file>"))
+            inp = dict(filter=name, args=canon_args(args), arg_type=type(args[-1]).__name__ if args else None, events=specs2)
+            key, what = r
+            if not fresh_process_fails(inp):
+                # the shrunk input alone is handled correctly by a fresh interpreter: the answer depends on what the
+                # process saw before (module-level state), so in-process shrinking was misleading.
+                if fresh_process_fails(dict(inp, events=specs)):
+                    inp["events"] = specs  # the unshrunk input fails on its own (state built up within the call)
+                    what += " (fails in a fresh process only with all of these particles: the answer depends on the other particles seen)"
+                else:
+                    # find a short run of earlier calls after which it fails in a fresh process too
+                    hist = minimal_history(history[:-1], inp)
+                    if hist is None:
+                        inp["events"] = specs
+                        hist = minimal_history(history[:-1], inp)
+                    inp["history"] = hist if hist is not None else [enc_hist(h) for h in history[:-1]]
+                    key = f"history-dependent-{key}"
+                    what = (f"after {len(inp['history'])} earlier filter call(s) in the same process: " + what +
+                            " -- the same call in a fresh process is answered correctly")
+            ctx.violation(key, what, dict(input=inp, how_to_replay="./check C03 --replay <this file>"))
             names.remove(name)
             if not names:
                 break
     ctx.cov["oracle_cases"] = n
     ctx.count("oracle", n)
+
+
+def enc_hist(h):
+    name, args, specs = h
+    return dict(filter=name, args=canon_args(args), arg_type=type(args[-1]).__name__ if args else None, events=specs)
+
+
+def fresh_process_fails(inp):
+    """does `inp` (optionally with inp['history']) violate the property in a NEW interpreter?"""
+    import os
+    import subprocess
+    import sys
+    import tempfile
+    with tempfile.NamedTemporaryFile("w", suffix=".json", delete=False) as f:
+        json.dump(dict(input=inp), f)
+    try:
+        p = subprocess.run([sys.executable, str(common.VERIF / "harness/main.py"), "C03", "--replay", f.name],
+                           capture_output=True, text=True, timeout=300, env=dict(os.environ))
+        return p.returncode == 1 and "VIOLATION" in p.stdout
+    finally:
+        os.unlink(f.name)
+
+
+def minimal_history(history, inp):
+    """shortest suffix (then thinned) of the earlier calls after which `inp` fails in a fresh process; None if none does"""
+    hs = [enc_hist(h) for h in history]
+    k, found = 1, None
+    while True:
+        cand = hs[-k:] if k < len(hs) else hs
+        if fresh_process_fails(dict(inp, history=cand)):
+            found = cand
+            break
+        if k >= len(hs):
+            return None
+        k *= 4
+    # thin out: drop blocks, then single calls (bounded effort)
+    tries = 0
+    block = max(1, len(found) // 2)
+    while block >= 1 and tries < 40:
+        i, changed = 0, False
+        while i < len(found) and tries < 40:
+            cand = found[:i] + found[i + block:]
+            tries += 1
+            if fresh_process_fails(dict(inp, history=cand)):
+                found, changed = cand, True
+            else:
+                i += block
+        if not changed or block == 1:
+            block //= 2
+    return found
+
+
+def _args_of(inp):
+    args = inp["args"]
+    conv = {"ndarray": np.array, "tuple": tuple, "list": list}.get(inp.get("arg_type"))
+
+    def fix(a):
+        return tuple(a) if isinstance(a, list) and conv is None else a
+    args = [fix(a) for a in args]
+    if conv and args:
+        args[-1] = conv(args[-1])
+    return tuple(args)
 
 
 def materialise(specs):
@@ -228,16 +308,11 @@ def replay(ctx, path):
     if not inp:
         print(f"[C03] replay file names a broken obligation, not an input: {d.get('broken')}")
         return 1
-    args = inp["args"]
-    conv = {"ndarray": np.array, "tuple": tuple, "list": list}.get(inp.get("arg_type"))
-
-    def fix(a):
-        return tuple(a) if isinstance(a, list) and conv is None else a
-    args = [fix(a) for a in args]
-    if conv and args:
-        args[-1] = conv(args[-1])
+    for h in inp.get("history") or []:  # earlier calls of the same process, replayed first
+        hevs, _ = materialise(h["events"])
+        run_real(h["filter"], _args_of(h), hevs)
     evs, ids = materialise(inp["events"])
-    r = oracle_one(inp["filter"], tuple(args), evs, ids)
+    r = oracle_one(inp["filter"], _args_of(inp), evs, ids)
     if r:
         print(f"VIOLATION property=C03 replay={path}")
         print(r[1])
